@@ -24,6 +24,14 @@ FOCUS = {
        "over from earlier calls (caches, indexes, free lists), a particular ORDER of otherwise ordinary operations, and "
        "unusual-but-legal arguments (the document node, detached nodes, attribute / namespace nodes, the same node twice, "
        "ancestor / descendant pairs).",
+    4: "ROUND 4. Aim at effects that one call alone does not show: a change that is only visible through a SECOND, "
+       "different API looking at the same state (two accessors that should agree, a lookup after a mutation, a serialisation "
+       "after a repair call); trees that are the RESULT of earlier manipulation (moved, unwrapped, cloned, deduplicated, "
+       "re-parsed into a Xot that already holds other documents) rather than freshly built ones; what is left behind after a "
+       "call returned an error; non-default configuration of the Xot or of the serialiser combined with an ordinary call; "
+       "boundary positions (first / last child, first / last attribute, root, document node, empty containers, single-character "
+       "and empty strings); and off-by-one or wrong-branch slips in code paths that only one kind of node reaches (comments, "
+       "processing instructions, namespace nodes, attribute nodes, detached nodes).",
 }
 for pid in want:
     wt = "/tmp/wt%d-%s" % (rnd, pid)
